@@ -14,6 +14,14 @@ func C09Scenario() *Scenario {
 		t := w.T
 		s := newRollingSetup(w, RollingOpts{MaxReplicas: 3})
 		p := s.Parents[0]
+		// in half of the runs one child is the same in every revision: a rollout step
+		// then hands two children to the latest revision at once (the unchanged one and
+		// the regular move), and an interruption between the two revision writes leaves
+		// two existing children that no revision names
+		if st := t.Pick(6, "static-child"); st >= 3 {
+			s.TP.StaticIdx = map[int]bool{st - 3: true}
+			w.Cfg["staticChild"] = fmt.Sprint(st - 3)
+		}
 		// in a quarter of the runs the controller has a finalize hook that keeps the
 		// children (and answers finalized:false) while spec.template.hold is true, and the
 		// parent is deleted in the middle of the rollout: the rollout goes on under
@@ -40,6 +48,16 @@ func C09Scenario() *Scenario {
 				v.Class = strings.Replace(v.Class, "-at-restart", "-in-durable-state", 1)
 			}
 			return v
+		})
+		// ... and a child is only ever changed once a ControllerRevision in the store names it
+		seenReqs := 0
+		w.Invariants = append(w.Invariants, func(w *World) *Violation {
+			for ; seenReqs < len(w.Reqs); seenReqs++ {
+				if v := c09Recorded(w, s, p, w.Reqs[seenReqs], deleteMidRollout); v != nil {
+					return v
+				}
+			}
+			return nil
 		})
 		budget := func(w *World) *Violation {
 			return &Violation{Prop: "C09", Class: "rollout-not-resumed", Sig: c09Sig(w, s),
@@ -100,6 +118,9 @@ func C09Scenario() *Scenario {
 func planName(w *World) string {
 	if w.Plan == nil || w.Plan.Kind == "" {
 		return "(no fault)"
+	}
+	if w.Plan.Again {
+		return fmt.Sprintf("%s at interaction %d and again at the next request of that kind", w.Plan.Kind, w.Plan.Pos)
 	}
 	return fmt.Sprintf("%s at interaction %d", w.Plan.Kind, w.Plan.Pos)
 }
@@ -235,4 +256,53 @@ func c09AtRestart(w *World, s *Setup, p ParentRef) *Violation {
 		}
 	}
 	return nil
+}
+
+// c09Recorded: "rollout intent is persisted before acting" for one request. An existing
+// child of the rolling kind that the parent still desires is updated or deleted (for
+// re-creation) only while some ControllerRevision of the parent in the store claims it:
+// the sync that changes it had all its revision writes accepted first, and those record
+// every desired rolling child under exactly one revision. Judged at the moment the
+// request is applied (the invariant runs after every kernel step).
+func c09Recorded(w *World, s *Setup, p ParentRef, q *ReqRec, finalizing bool) *Violation {
+	rule := s.rollingRule()
+	if finalizing || q.Sync < 0 || q.Res != rule.Res || !q.Applied || q.Pre == nil || q.Sub != "" {
+		return nil
+	}
+	if q.Verb != "update" && q.Verb != "patch" && q.Verb != "delete" {
+		return nil
+	}
+	if !isChildContentWrite(s, q) {
+		return nil
+	}
+	po := p.Get(w)
+	if po == nil || getPath(po, "metadata", "deletionTimestamp") != nil {
+		return nil
+	}
+	pre := mustParse(q.Pre)
+	if c := controllerOf(pre); c == nil || c.UID != mstr(po, "uid") {
+		return nil
+	}
+	n := int(getInt(po, "spec", "replicas"))
+	desired := false
+	for i := 0; i < n; i++ {
+		if q.Name == fmt.Sprintf("%s-%d", p.Name, i) {
+			desired = true
+		}
+	}
+	if !desired {
+		return nil
+	}
+	key := claimKey(rule.Res.Group, rule.Res.Kind, q.Name)
+	var names []string
+	for _, o := range ControlledBy(w.Store, ResRevision, mstr(po, "uid")) {
+		r := parseRevision(o)
+		names = append(names, r.Name)
+		if r.claims(key) {
+			return nil
+		}
+	}
+	w.Probe("c09:child-write-judged-against-records")
+	return &Violation{Prop: "C09", Class: "child-changed-without-a-revision-record", Sig: c09Sig(w, s), Step: q.Step,
+		Detail: fmt.Sprintf("after the %s: %s changed the child while none of the parent's ControllerRevisions in the store %v lists %s", planName(w), q.Short(), names, key)}
 }
